@@ -591,7 +591,12 @@ def cfg_from_tokens(ntoks):
     return cfg
 
 
-def oracle(line, out):
+def oracle(line, out, verbose=False):
+    """replays the operation sequence against the reference semantics: whenever every field a
+    decision depends on is available, config_check_cond / patch_config must give what the
+    configuration language defines for the attributes the request has at that moment.
+    Messages are kept generic (one violation signature per failure kind); `verbose` adds
+    the block / directive numbers (used by --replay)."""
     if out in ("bad-op", "config-error", "<crash>"):
         return "harness rejected a generated case: " + out
     cfghex, ntoks, ops = parse_line(line)
@@ -602,7 +607,7 @@ def oracle(line, out):
         return "number of observations differs from number of operations"
     slots = [dict(at=blank_attrs(), valid=set())]
     n = len(cfg.nodes)
-    for op, ob in zip(ops, obs):
+    for step, (op, ob) in enumerate(zip(ops, obs)):
         f = op.split(",")
         k = f[0]
         if k == "s":
@@ -623,12 +628,14 @@ def oracle(line, out):
             i = int(f[2])
             got = ob[1] == "1"
             want = cfg.applies(i, sl["at"])
+            det = " [op %d: block %d]" % (step, i) if verbose else ""
             if cfg.needed(i) <= sl["valid"]:
-                if got != want:
-                    return ("config_check_cond(node %d) = %d but the configuration language gives %d "
-                            "for the current request attributes" % (i, got, want))
+                if got and not want:
+                    return "config_check_cond true for a block that does not apply to the request" + det
+                if want and not got:
+                    return "config_check_cond false for a block that applies to the request" + det
             elif got and not want:
-                return "config_check_cond(node %d) true although the block does not apply" % i
+                return "config_check_cond true for a block that does not apply to the request" + det
         elif k in "ph":
             dirs = [int(c) for c in f[2]] if k == "p" else [0, 1, 2]
             vals = [int(x) for x in ob[1:ob.index("=")].split(".")]
@@ -636,8 +643,9 @@ def oracle(line, out):
                 for d, got in zip(dirs, vals):
                     want = cfg.value(d, sl["at"])
                     if got != want:
-                        return ("patch_config: directive %d has value %d, the last contributing block "
-                                "in file order gives %d" % (d, got, want))
+                        det = " [op %d: directive %d is %d, expected %d]" % (step, d, got, want) if verbose else ""
+                        return ("%s: a directive does not have the value of the last contributing block in "
+                                "file order" % ("patch_config" if k == "p" else "http_response_config")) + det
     return None
 
 
@@ -845,7 +853,7 @@ def replay_line(ctx, rep):
     print("config:\n" + C.unhx(rep["input"].split(" ")[1]).decode("latin-1"))
     print("impl :", o, rc)
     print("model:", m)
-    v = oracle(rep["input"], o[0]) if o else "crash"
+    v = oracle(rep["input"], o[0], verbose=True) if o else "crash"
     print("oracle:", v)
     if v or o != m or rc != 0:
         print("VIOLATION property=%s replay=%s" % (ctx.pid, "(replayed)"))
